@@ -348,7 +348,14 @@ def spec_value(case):
             raise HarnessError("spec.ws answered %r" % (ans,))
         if abs(float(ans[0]) - py) > 1e-9 * max(1e-300, scale_of(case)):
             raise HarnessError("the two evaluations of the specification differ: lean %r python %r" % (ans[0], py))
-        return py, w1, w2, "exhaustive enumeration of partial matchings (Lean spec.ws and Python agree)"
+        how = "exhaustive enumeration of partial matchings (Lean spec.ws and Python agree)"
+        if max(1, len(S)) + max(1, len(T)) <= EXH_MAX:
+            # third opinion: the model with the exhaustive solver, which theorem `exhaustive_model_eq_spec` identifies with the specification
+            e = ask(["ws.exh %s %s" % (enc(case["dgm1"]), enc(case["dgm2"]))])[0]
+            if not (isinstance(e, list) and len(e) == 3) or abs(float(e[2]) - py) > 1e-9 * max(1e-300, scale_of(case)):
+                raise HarnessError("proved evaluator ws.exh %r and the enumeration %r differ" % (e, py))
+            how = "exhaustive enumeration of partial matchings (Lean spec.ws, Python and the proved evaluator ws.exh agree)"
+        return py, w1, w2, how
     if not S and not T:
         return 0.0, w1, w2, "both empty"
     line, claimed = certificate(None, spec_matrix(S, T))
